@@ -719,7 +719,10 @@ def record(case, res, ast):
     elif k is None:
         return "unmapped:" + res["err"]
     elif k not in OPKINDS[case["op"]]:
-        return "unexpected-kind:%s for %s: %s" % (k, case["op"], res["err"])
+        # the message is of another class than the laid-out failure: the frames decide (oracle (a) only).  If they are what the
+        # layout says, the generator is wrong about the message (machinery failure, see run()); if not, the stack is wrong
+        case["unexpected_kind"] = "unexpected-kind:%s for %s: %s" % (k, case["op"], res["err"])
+        ast = None
     if c01.kind_of(res["err"]) != k:
         ast = None                 # not a kind RefSem knows: oracle (a) only
     bt = parse_bt(res.get("bt", ""))
@@ -828,6 +831,10 @@ def run(ctx):
     bad, judged = validate(ctx, recs, "p")
     ctx.log("TLC validated %d records: %d also judged by RefSem, %d rejected" % (len(recs), len(judged), len(bad)))
     byid = {c["id"]: c for c in cases}
+    odd = [c for c in cases if c.get("unexpected_kind") and c["id"] not in bad]
+    if odd:
+        raise vlib.MachineryError("%d generated programs failed with another kind of message than laid out although their stacks are as expected, e.g. %s\n%s" % (
+            len(odd), odd[0]["unexpected_kind"], odd[0]["src"][:1500]))
     if bad:
         # re-execute the rejected cases once more from scratch before reporting them
         again = [byid[i] for i in sorted(bad)][:200]
